@@ -201,10 +201,12 @@ impl<'a> IRCodeGen<'a> {
                 let (aops, a) = self.expression(&a, ctx);
                 let (bops, b) = self.expression(&b, ctx);
                 let c = self.var();
+                let default = self.var();
                 (
                     [
                         aops,
-                        vec![IR::Bool(c, false), IR::If(a)],
+                        // The result is declared, so that assigning it is valid even if it is never read.
+                        vec![IR::Define(c), IR::Bool(default, false), IR::Assign(c, default), IR::If(a)],
                         bops,
                         vec![IR::Assign(c, b), IR::End],
                     ]
@@ -217,10 +219,17 @@ impl<'a> IRCodeGen<'a> {
                 let (bops, b) = self.expression(&b, ctx);
                 let neg_a = self.var();
                 let c = self.var();
+                let default = self.var();
                 (
                     [
                         aops,
-                        vec![IR::Bool(c, true), IR::Not(neg_a, a), IR::If(neg_a)],
+                        vec![
+                            IR::Define(c),
+                            IR::Bool(default, true),
+                            IR::Assign(c, default),
+                            IR::Not(neg_a, a),
+                            IR::If(neg_a),
+                        ],
                         bops,
                         vec![IR::Assign(c, b), IR::End],
                     ]
